@@ -43,9 +43,9 @@ pub struct Delivery {
     pub pay: Option<Pay>,
     /// scratchpad: counter; others unused
     pub counter: u64,
-    /// scratchpad form: 0 valid, 1 unsigned, 2 foreign signer, 3 inflated counter
+    /// scratchpad form: 0 valid, 1 unsigned, 2 foreign signer, 3 inflated counter, 4 content substituted under the genuine signature
     pub form: u8,
-    /// transactions: (id, valid?1:0); register ops: (id, signer: 0 owner, 1 listed writer, 2 stranger)
+    /// transactions: (id, valid?1:0); register ops: (id, signer: 0 owner, 1 listed writer, 2 stranger, 3 forged in the owner's name, 4 forged in the writer's name)
     pub items: Vec<(u32, u8)>,
     /// 0 honest key, 1 key of another record of the same kind, 2 random key
     pub key_mode: u8,
@@ -69,6 +69,9 @@ pub struct Plan {
     pub mode: String,
     pub seed: u64,
     pub n_peers: usize,
+    /// swarm knob: size of the record store's in-memory cache (0 = the default of 25); with 1 or 2 most reads come from disk
+    #[serde(default)]
+    pub cache: usize,
     pub steps: Vec<Step>,
 }
 
@@ -140,7 +143,9 @@ fn gen_delivery(rng: &mut Rng, prop: &str, mutable_only: bool, unpaid_bias: bool
         let flag = match kind {
             // transactions: 0 = invalid signature, 1 = valid, 2 = validly signed transaction of ANOTHER owner
             2 => match rng.below(12) { 0 | 1 => 0, 2 | 3 => 2, _ => 1 },
-            _ => if rng.chance(1, 6) { 2 } else { rng.below(2) as u8 },
+            // register ops: 0 owner, 1 listed writer, 2 stranger, 3 / 4 = op NAMING the owner / the listed writer
+            // as its source but signed by the stranger's key
+            _ => if rng.chance(1, 5) { 2 + rng.below(3) as u8 } else { rng.below(2) as u8 },
         };
         items.push((id, flag));
     }
@@ -173,7 +178,7 @@ fn gen_delivery(rng: &mut Rng, prop: &str, mutable_only: bool, unpaid_bias: bool
         who,
         pay,
         counter: rng.range(1, 6),
-        form: if rng.chance(1, 4) { 1 + rng.below(3) as u8 } else { 0 },
+        form: if rng.chance(1, 4) { 1 + rng.below(4) as u8 } else { 0 },
         items,
         key_mode,
         mangle,
@@ -298,7 +303,9 @@ impl Sim for NodeSim {
             property: ctx.property.clone(),
             mode: ctx.mode.clone(),
             seed: rng.next_u64(),
-            n_peers: 24,
+            // swarm knob: a sparse routing table (fewer than K peers known) up to more than K
+            cache: *rng.pick(&[0usize, 0, 1, 2]),
+            n_peers: match rng.below(4) { 0 => rng.urange(7, 18), 1 => rng.urange(19, 40), _ => 24 },
             steps,
         }
     }
